@@ -56,6 +56,9 @@ namespace options
                const std::string& about = std::string(""),
                const std::string& group = std::string("arguments"));
 
+        parser(parser&& other);
+        parser& operator=(parser&& other);
+
         auto parse(int argc, const char* const argv[]) -> arguments;
         auto parse(const std::vector<options::user_input>& args) -> arguments;
 
@@ -89,6 +92,8 @@ namespace options
         template <typename Options, typename Iter>
         bool try_parse_as_option(Options&& options, Iter& it, Iter end);
         bool try_parse_as_toggle(const user_input&);
+
+        void adopt_groups();
 
         void prepare_options();
         void validate_options();
